@@ -306,8 +306,13 @@ theorem C12_question_round_trip_all_modes (qn : WName) (qt qc : Nat) (s s' : Sta
   the additional section by the OPT record (payload size as CLASS, extended RCODE/version as TTL)
   and the TSIG record (key name, ANY, TTL 0). "Is the one given" (`RMatch`, `QMatch`): the decoded
   name, decompressed by the independent decoder, equals the name given up to ASCII case — octet
-  for octet if the call was made in `CasePreserving` or `Disabled` mode —, and TYPE, CLASS, TTL are
-  the values given. -/
+  for octet if the call was made in `CasePreserving` or `Disabled` mode —, TYPE, CLASS, TTL are
+  the values given, and the RDATA is the RDATA given, octet for octet, for every type whose RDATA
+  holds no compressible name (`Rdata::components` lists none: everything but NS, MD, MF, CNAME,
+  SOA, MB, MG, MR, PTR, MINFO, MX). Underneath (`RdAt`, `QV.Proofs.WriterRdPos`): for every record
+  the buffer holds the RDATA given part by part as `write_components` splits it — fixed-length
+  parts, uncompressible names and the rest verbatim, each compressible name as a name the
+  independent decoder reads there and that is the name given. -/
 theorem C12_records_are_the_calls_all_modes (macFn : Tsig → List UInt8 → List UInt8) (hmac : MacLenOK macFn)
     (buf : Bytes) (limit : Nat) (s0 : State) (hnew : Writer.new buf limit = .ok s0) (mode : CMode)
     (ops : List Op) (hr : Respects { w := { s0 with mode := mode } } ops) :
